@@ -15,6 +15,9 @@ CYCLE_SCRIPTS = [
     ("v1=[1]; m1={'k':v1}; v1[0]=m1; v1", True), ("v1=[1]; v2=[v1]; v1.push(v2); 0", True),
     ("m1={}; m2={'q':m1}; m1.z=[m2]; m1", True), ("&cv=1; m1={'c':&cv}; &cv.x=m1; 2", True),
     ("v1=[[1]]; v1[0].push(v1); v1", True), ("m1={}; m2={'y':0}; m1.x=m2; m2.y=m1; 3", True),
+    # a cycle, refused; then repaired in place: the same variables must snapshot and restore afterwards
+    ("v1=[1,2]; v1.push(v1); v1", True, "v1.pop(); v1"), ("m1={'k':1}; m1.x=m1; m1", True, "m1.x=2; m1"), ("v1=[1]; m1={'k':v1}; v1[0]=m1; v1", True, "v1[0]=5; [v1, m1]"),
+    ("&cv=1; &cv.x=&cv; 1", True, "&cv.x=3; 1"), ("v1=[[1]]; v1[0].push(v1); v1", True, "v1[0].pop(); v1"),
     # shared, not cyclic
     ("v1=[1]; v2=[v1,v1]; v2", False), ("v1=[1]; m1={'p':v1,'q':v1}; m1", False), ("v1=[1]; v2=[v1,{'k':v1}]; v2", False),
     ("m1={'a':[1]}; v2=[m1, m1.values()]; v2", False), ("v1=[1]; &cv=1; &cv.x=[v1,v1]; v3=[&cv,&cv]; 0", False),
@@ -128,9 +131,10 @@ def check_scripts(res):
 def check_cycles(res):
     """Each cycle script in its own child process: a fatal stack overflow cannot be recovered."""
     found, n = 0, 0
-    for src, cyclic in CYCLE_SCRIPTS:
+    for src, cyclic, *rep in CYCLE_SCRIPTS:
         try:
-            rows, r = common.run_harness(["c09-cyc", "-src", src.encode("utf-8").hex()], timeout=60, check=False, mem_kb=4_000_000)
+            rows, r = common.run_harness(["c09-cyc", "-src", src.encode("utf-8").hex()] + (["-repair", rep[0].encode("utf-8").hex()] if rep else []),
+                                         timeout=60, check=False, mem_kb=4_000_000)
         except Exception as e:  # timeout
             res.violation({"what": "ToJSON of a script-built structure does not terminate", "script": src, "detail": str(e)})
             found += 1
@@ -146,6 +150,10 @@ def check_cycles(res):
             found += 1
         elif cyclic and (not row.get("cyclic") or "maperr" not in row):
             res.violation({"what": "variables containing a reference cycle were serialised without error", "script": src, "row": row})
+            found += 1
+        elif rep and (row.get("repair_runerr") or row.get("repair_bad")):
+            res.violation({"what": "after a refused snapshot (reference cycle) the script repaired the value in place, but the variables do not snapshot / restore: "
+                                   + (row.get("repair_bad") or "the repair script failed"), "script": src, "repair": rep[0], "row": row})
             found += 1
         elif not cyclic and (row.get("cyclic") or "maperr" in row or "valerr" in row):
             res.violation({"what": "shared (acyclic) structure was rejected by ToJSON", "script": src, "row": row})
